@@ -20,6 +20,16 @@ def main():
         if not (d / "patch.diff").exists() or (pref and not any(d.name.startswith(p) for p in pref)):
             continue
         prop = d.name.split("_")[0]
+        meta0 = json.loads((d / "meta.json").read_text())
+        ALL = [f"C{i:02d}" for i in range(1, 21)]
+        if prop.startswith("A"):
+            # "any property" seeds (round 3, by source area): every check is run; the ones the author
+            # named come first
+            named = [meta0.get("property")] + list(meta0.get("also") or [])
+            named = [x for x in named if x in ALL]
+            checks = named + [c for c in ALL if c not in named]
+        else:
+            checks = [prop] + EXTRA.get(d.name, [])
         scratch = Path(tempfile.mkdtemp(prefix="seedtry."))
         try:
             shutil.copytree("/repo/src", scratch / "src")
@@ -32,7 +42,7 @@ def main():
             c0 = run(["/venv/bin/python", str(d / "demo.py")], env=env0, timeout=300).returncode
             c1 = run(["/venv/bin/python", str(d / "demo.py")], env=env1, timeout=300).returncode
             det = {}
-            for chk in [prop] + EXTRA.get(d.name, []):
+            for chk in checks:
                 r = run(["./check", chk], cwd=ROOT, env=dict(os.environ, ANYIO_REPO=str(scratch), VERIF_SEED="0"),
                         timeout=1200)
                 lines = [l for l in r.stdout.splitlines() if l.startswith("VIOLATION")]
@@ -40,7 +50,7 @@ def main():
                     kind = "correspondence only (no-failing-input-found)" if all(
                         "no-failing-input-found" in l for l in lines) else "oracle: failing input on the real code"
                     det[chk] = kind
-                else:
+                elif not prop.startswith("A") or chk in named:
                     det[chk] = "MISSED"
             meta = json.loads((d / "meta.json").read_text())
             meta["confirmed"] = {"demo_clean_exit": c0, "demo_patched_exit": c1,
@@ -60,14 +70,14 @@ def main():
     f = ROOT / "seeded" / "RESULTS.md"
     if f.exists() and pref:
         for l in f.read_text().splitlines():
-            m = re.match(r"\| (C\d+_\d+) \|", l)
+            m = re.match(r"\| ([AC]\d+_\d+) \|", l)
             if m:
                 old[m.group(1)] = l
     for r in rows:
         old[r[0]] = f"| {r[0]} | {r[1]} | {r[2]} | {r[3]} |"
     out += [old[k] for k in sorted(old)]
     f.write_text("\n".join(out) + "\n")
-    print("\n".join(out[-len(old):]))
+    print("\n".join(old[r[0]] for r in rows))
 
 
 if __name__ == "__main__":
